@@ -142,6 +142,10 @@ func (s *Signature) String() string {
 // Verify will ensure that the provided key was used to sign the
 // signature and will provide the raw data that was signed.
 func (s *Signature) Verify(key *PublicKey) ([]byte, error) {
+	if key == nil || key.jwk == nil {
+		// no key, no match
+		return nil, ErrKeyMismatch
+	}
 	data, err := s.jws.Verify(key.jwk)
 	if err != nil {
 		// at the risk of hiding useful errors, provide our own
